@@ -46,25 +46,31 @@ func vTriAt(name string, i, n int) *bool {
 	return nil
 }
 
+var vExactLists bool // every axis list has exactly L entries (keeps the computed sets small for the set-algebra harness)
+
 func vSymFeatures(L int) *conformancev1.Features {
 	f := &conformancev1.Features{}
-	n := vInt("nver", 0, L)
+	lo := 0
+	if vExactLists {
+		lo = L
+	}
+	n := vInt("nver", lo, L)
 	for i := 0; i < n; i++ {
 		f.Versions = append(f.Versions, conformancev1.HTTPVersion(vIntAt("ver", i, 3, 1, 3)))
 	}
-	n = vInt("nproto", 0, L)
+	n = vInt("nproto", lo, L)
 	for i := 0; i < n; i++ {
 		f.Protocols = append(f.Protocols, conformancev1.Protocol(vIntAt("proto", i, 3, 1, 3)))
 	}
-	n = vInt("ncodec", 0, L)
+	n = vInt("ncodec", lo, L)
 	for i := 0; i < n; i++ {
 		f.Codecs = append(f.Codecs, conformancev1.Codec(vIntAt("codec", i, 3, 1, 3)))
 	}
-	n = vInt("ncomp", 0, L)
+	n = vInt("ncomp", lo, L)
 	for i := 0; i < n; i++ {
 		f.Compressions = append(f.Compressions, conformancev1.Compression(vIntAt("comp", i, 3, 1, 6)))
 	}
-	n = vInt("nstream", 0, L)
+	n = vInt("nstream", lo, L)
 	for i := 0; i < n; i++ {
 		f.StreamTypes = append(f.StreamTypes, conformancev1.StreamType(vIntAt("stream", i, 3, 1, 5)))
 	}
@@ -471,7 +477,10 @@ func h06p(L, NI, NE int) {
 	vAssert(!found || specValid(f, c), "every resulting case is internally possible")
 }
 
-func H06p_q() { h06p(1, 1, 1) }
+func H06p_q() {
+	vExactLists = true
+	h06p(1, 1, 1)
+}
 func H06p_d() { h06p(1, 1, 0) }
 func H06p_t() { h06p(2, 2, 2) }
 
